@@ -1195,12 +1195,16 @@ def main():
     import fsock2lean  # FrameSocket: the public wrapper around the codec
     import inc2lean    # IncompleteMessage: size guard, text/binary dispatch
     import resp2lean   # write_response: serialisation of the server's answer
+    import hdr2lean    # FrameHeader: the header decoder and encoder
+    import mask2lean   # mask.rs: apply_mask, the fallback and the word-wise fast path
     gens = GENERATORS + [('Ctx.lean', ctx2lean.gen_ctx), ('CodecGen.lean', codec2lean.gen_codec),
                          ('HsGen.lean', hs2lean.gen_hs), ('CollGen.lean', coll2lean.gen_coll),
                          ('FrameGen.lean', frame2lean.gen_frame),
                          ('FsockGen.lean', fsock2lean.gen_fsock),
                          ('IncGen.lean', inc2lean.gen_inc),
-                         ('RespGen.lean', resp2lean.gen_resp)]
+                         ('RespGen.lean', resp2lean.gen_resp),
+                         ('HdrGen.lean', hdr2lean.gen_hdr),
+                         ('MaskGen.lean', mask2lean.gen_mask)]
     for name, fn in gens:
         try:
             text = fn(repo)
